@@ -143,7 +143,7 @@ func genAdv(prop string) func(rt *rapid.T) interface{} {
 			sc.LegitOps = 0
 			nconn = rapid.IntRange(1, 2).Draw(rt, "nconn")
 			kinds = append(kinds, advSetup...)
-			kinds = append(kinds, "ps-degenerate-chain", "ps-degenerate-chain", "ps-degenerate-chain", "ps-m1", "ps-m1", "ps-m3-right", "ps-m3-right", "ps-m5-genuine", "ps-m5-zero", "ps-m5-nilk", "ps-m3-a0", "ps-m5-weak", "ps-m5-weak")
+			kinds = append(kinds, "ps-degenerate-chain", "ps-degenerate-chain", "ps-degenerate-chain", "ps-m1", "ps-m1", "ps-m3-right", "ps-m3-right", "ps-m5-genuine", "ps-m5-zero", "ps-m5-nilk", "ps-m3-a0", "ps-m5-weak", "ps-m5-weak", "ps-twin-race", "ps-twin-race")
 		case "C03":
 			sc.KnowsKey = rapid.IntRange(0, 2).Draw(rt, "key") != 0
 			if rapid.IntRange(0, 4).Draw(rt, "unpaired") == 0 {
@@ -539,6 +539,70 @@ func (aw *advWorld) do(p *peerConn, op AdvOp) *advResult {
 		}
 		w.Sim.Count("probe.degenerate_chain")
 		return aw.do(p, m5)
+	case "ps-twin-race":
+		// The accessory files a connection (and its pair-setup controller) under the remote ip:port.
+		// A peer that binds two sockets to one local ip:port and connects them to two addresses of a
+		// multi-homed accessory owns two connections which are served by two goroutines and share one
+		// controller: a key exchange can arrive while a verify request is still being processed.
+		addr := p.conn.Client().LocalAddr().String()
+		c2 := w.Sim.Dial(w.Sim.Listener, addr)
+		cl2 := &ref.Client{Conn: c2.Client(), Rand: w.Rand}
+		name := p.name
+		cl2.Yield = func(what string) { w.Sim.Park("step", name, c2.ID, " "+what, nil) }
+		p.conns = append(p.conns, c2)
+		w.Sim.Count("fault.twin_connection_same_remote_address")
+		// the twin is served once it has answered something
+		if err := cl2.Send(ref.Request("GET", "/accessories", "", nil)); err == nil {
+			cl2.Recv()
+		}
+		aw.do(p, AdvOp{Conn: p.slot, Kind: "ps-m1"})
+		if p.dead || p.salt == nil {
+			cl2.Conn.Close()
+			p.cl.Conn.Close()
+			p.dead = true
+			return r
+		}
+		// verify request with a wrong proof on the first connection; its answer is not awaited
+		var sec [32]byte
+		w.Rand.Read(sec[:])
+		srp := ref.NewSRPClient(sec)
+		code := "111-22-333"
+		if code == fmtPin(sc.Pin) {
+			code = "111-22-334"
+		}
+		proof, _ := srp.Proof(p.salt, p.B, code)
+		m3 := ref.TLVEncode([]ref.TLV{{Tag: ref.TagState, Val: []byte{3}}, {Tag: ref.TagPublicKey, Val: srp.PublicA()}, {Tag: ref.TagProof, Val: proof}})
+		if err := p.cl.Send(ref.Request("POST", "/pair-setup", ref.CTypeTLV, m3)); err != nil {
+			r.Err = err.Error()
+		}
+		// meanwhile the key exchange under a key everybody can compute, on the twin
+		id, kp := aw.peerID, aw.peerKP
+		var zero [32]byte
+		var enc []byte
+		switch op.Arg % 3 {
+		case 0:
+			enc = ref.SetupM5PayloadWith(zero, nil, id, kp.Pub, kp.Priv)
+		case 1:
+			enc = ref.SetupM5Payload(nil, id, kp)
+		default:
+			enc = ref.SetupM5Payload(ref.H512(nil), id, kp)
+		}
+		if err := cl2.Send(ref.Request("POST", "/pair-setup", ref.CTypeTLV, ref.TLVEncode([]ref.TLV{{Tag: ref.TagState, Val: []byte{5}}, {Tag: ref.TagEncrypted, Val: enc}}))); err == nil {
+			if m, err := cl2.Recv(); err == nil && m.Status == 200 {
+				if t, _, err := ref.TLVDecode(m.Body); err == nil && aw.on("C02") && tlvErr(t) == 0 && len(t[ref.TagEncrypted]) > 0 {
+					aw.violate("m6-for-forged-m5", "a key-exchange request under a key everybody can compute, sent on a second connection from the same remote address while a verify request with a wrong proof was being processed, was answered with the accessory's encrypted key-exchange response")
+				}
+			}
+		}
+		if r.Err == "" {
+			r.Sent = true
+			p.readAnswer(r)
+		}
+		// both connections are given up; the slot reconnects from a new port
+		cl2.Conn.Close()
+		p.cl.Conn.Close()
+		p.dead = true
+		p.srp, p.salt, p.B, p.m3rightOK, p.setupClean = nil, nil, nil, false, false
 	case "ps-m3-a0-pubproof", "ps-m3-longA", "ps-m3-badprooflen":
 		// verify requests a peer without the setup code can build from public values only
 		items := []ref.TLV{{Tag: ref.TagState, Val: []byte{3}}}
